@@ -1,4 +1,5 @@
 import CwMt.Proofs.Bech32
+import CwMt.Model.Address
 /-
   C18 — Address helpers are total, consistent and reject foreign or malformed input.
   Property theorems only; helper lemmas live in CwMt/Proofs/Bech32.lean.
@@ -205,5 +206,33 @@ example : hasUpper (addrB.set 5 'W') = true ∧ hasLower (addrB.set 5 'W') = tru
 set_option maxRecDepth 100000 in
 example : addrMake (fun _ => [0x75, 0x1e]) .bech32 juno [] = .ok addrB
     ∧ addrMake (fun _ => [0x75, 0x1e]) .bech32 ['J', 'u'] [] = .panic := by decide
+
+/-! ### with the real hash
+
+`CwMt/Model/Sha256.lean` is SHA-256 itself (the wasm driver recomputes every address the implementation declares
+with it), so the statements about `addr_make` hold for the function the code runs, not only for a parameter `H`. -/
+
+/-- `addr_make` is total for every valid prefix: a digest is 32 bytes -/
+theorem addr_make_sha256_total (v : Variant) (p : List Char) (name : String) (hp : hrpValid p = true) :
+    ∃ a, Address.make v p name = .ok a :=
+  addr_make_total Sha256.digest v p _ hp (Sha256.digest_length _)
+
+/-- … and the address validates under its own codec, unchanged -/
+theorem addr_make_sha256_valid (v : Variant) (p : List Char) (name : String) (a : List Char)
+    (hp : ValidPrefix p) (h : Address.make v p name = .ok a) : addrValidate v p a = .ok a :=
+  addr_make_valid Sha256.digest v p _ a hp
+    (by rw [Sha256.digest_length]; cases v <;> decide) h
+
+/-- the classic contract address and the default checksum are derived from 32-byte digests: humanizing them is
+total for every valid prefix -/
+theorem classic_address_total (v : Variant) (p : List Char) (codeId instanceId : Nat) (hp : ValidPrefix p) :
+    ∃ a, Address.classicAddr v p codeId instanceId = .ok a ∧ addrValidate v p a = .ok a := by
+  have hl : lengthOk v (Address.classicCanonical codeId instanceId).length = true := by
+    rw [Address.classicCanonical_length]; cases v <;> decide
+  have hm := addr_make_total (fun _ => Address.classicCanonical codeId instanceId) v p [] hp.1
+    (Address.classicCanonical_length _ _)
+  obtain ⟨a, ha⟩ := hm
+  have hh := (addr_make_eq_humanize (fun _ => Address.classicCanonical codeId instanceId) v p [] a hl).mp ha
+  exact ⟨a, hh, addr_make_valid (fun _ => Address.classicCanonical codeId instanceId) v p [] a hp hl ha⟩
 
 end CwMt.C18
